@@ -1181,7 +1181,10 @@ def move_imports_to_toplevel(source: str) -> str:
             safe_position_lineno = min(module_import_linenos)
 
         source_lines = source.splitlines()
-        while safe_position_lineno > 1 and re.findall(r"^\s+", source_lines[safe_position_lineno]):
+        while (
+            1 < safe_position_lineno < len(source_lines)
+            and re.findall(r"^\s+", source_lines[safe_position_lineno])
+        ):
             safe_position_lineno -= 1
 
         enclosing_statement_lineno = next(
